@@ -84,7 +84,7 @@ func r11_2(c *Ctx, rule string) {
 				return
 			}
 			if o, _, fv, isF := eng.LoadedField(v); isF && strings.HasPrefix(o, "fsutil.filterFS.") && strings.HasSuffix(types.TypeString(fv.Type(), nil), "patternmatcher.PatternMatcher") {
-				consulted[fv.Name()] = true
+				consulted[o[strings.LastIndex(o, ".")+1:]] = true
 			}
 		})
 	}
